@@ -17,10 +17,10 @@ PROP = "C04"
 LEVEL = "exploration"
 
 ATOMS_Q = ["x", " x ", "", "\nx", "*x"]
-ATOMS_T = ["x", " x", "x ", " x y ", "", "\nx", "*x", ":x", "#x"]
+ATOMS_T = ["x", " x", "x ", "", "\nx", "*x", "#x"]
 NAMES = ["1", "k", "2"]
 KEYS_Q = [None, "k", " k "]
-KEYS_T = [None, "k", " k ", "1", "2"]
+KEYS_T = [None, "k", " k ", "1"]
 
 
 def grammar(tier):
